@@ -1,14 +1,27 @@
 // dataflow_runner <programs.ndjson> <out.ndjson>      (C18)
-// Runs the real live_and_dead_analysis on every program and exports, per block, the variables live at the end of
-// the block (liveness_analysis::get) and the variables reported dead at the end of the block (dead_exit).
+// Pass 1 (liveness): runs the real live_and_dead_analysis on every program and exports, per block, the variables live
+// at the end of the block (liveness_analysis::get) and the variables reported dead at the end of the block (dead_exit).
+//   {"id":k,"live":[[vars]...],"dead":[[vars]...]}
+// Pass 2 (assertion crawler): runs the real crab::analyzer::assertion_crawler (control dependencies enabled, the
+// default) on every program and exports, per block b, what assertion_crawler::get_results(b) contains:
+//   {"id":k,"k":"crawl","ctop":[0/1 per block],"crawl":[[{"a":assert id,"vs":[sorted variable indices]},...] per block]}
+// get_results(b) is the fact at the ENTRY of b: exec() copies killgen_fixpoint_iterator::m_in_map, and for a backward
+// analysis (assertion_crawler_operations::is_forward() == false) run_bwd_fixpo computes m_in_map[b] = analyze(b, OUT)
+// where analyze visits the statements of b in reverse, OUT = merge of m_in_map of the successors
+// (killgen_fixpoint_iterator.hpp: run_bwd_fixpo; assertion_crawler.hpp: exec(), get_results()).
+// An assertion is identified by the debug_info id that progbuild.hpp attaches to it.
+// The two passes run in separate child processes so that a CRAB_ERROR (exit) in one does not lose the other.
 #include "progbuild.hpp"
+#include <crab/analysis/dataflow/assertion_crawler.hpp>
 #include <crab/analysis/dataflow/liveness.hpp>
+#include <algorithm>
 #include <csignal>
 #include <sys/wait.h>
 #include <unistd.h>
 
 using namespace vh;
 typedef crab::analyzer::live_and_dead_analysis<z_cfg_ref_t> live_t;
+typedef crab::analyzer::assertion_crawler<z_cfg_ref_t> crawler_t;
 
 static void put_set(std::ostream &o, const live_t::set_t &s, const VarTab &vt) {
   o << "[";
@@ -21,7 +34,7 @@ static void put_set(std::ostream &o, const live_t::set_t &s, const VarTab &vt) {
   o << "]";
 }
 
-static void run_one(const vj::Value &p, std::ostream &o) {
+static void run_live(const vj::Value &p, std::ostream &o) {
   variable_factory_t vfac;
   VarTab vt(vfac);
   vt.declare(p["vars"]);
@@ -43,21 +56,53 @@ static void run_one(const vj::Value &p, std::ostream &o) {
   o << "]}\n";
 }
 
-int main(int argc, char **argv) {
-  if (argc < 3) return 2;
-  std::vector<vj::Value> ps;
-  {
-    std::ifstream in(argv[1]);
-    std::string line;
-    while (std::getline(in, line))
-      if (!line.empty()) ps.push_back(vj::parse(line));
+static void run_crawl(const vj::Value &p, std::ostream &o) {
+  variable_factory_t vfac;
+  VarTab vt(vfac);
+  vt.declare(p["vars"]);
+  std::unique_ptr<z_cfg_t> cfg = build_cfg(p, vt);
+  z_cfg_ref_t ref(*cfg);
+  crawler_t::assert_map_t assert_map;
+  crawler_t::summary_map_t summaries;
+  crawler_t crawler(ref, assert_map, summaries); // only_data = false: data and control dependencies
+  crawler.exec();
+  size_t nb = p["blocks"].size();
+  std::ostringstream tops, facts;
+  for (size_t b = 1; b <= nb; ++b) {
+    crawler_t::assert_map_domain_t r = crawler.get_results(blabel(b));
+    tops << (b > 1 ? "," : "") << (r.is_top() ? 1 : 0);
+    facts << (b > 1 ? "," : "") << "[";
+    if (!r.is_top() && !r.is_bottom()) {
+      std::vector<std::pair<long, std::vector<int>>> fs;
+      for (auto it = r.begin(); it != r.end(); ++it) {
+        auto key = it->first;   // assert_wrapper
+        auto vars = it->second; // discrete_domain<variable>
+        std::vector<int> vs;
+        if (vars.is_top()) {
+          for (size_t i = 1; i <= vt.n(); ++i) vs.push_back((int)i);
+        } else if (!vars.is_bottom()) {
+          for (auto vi = vars.begin(); vi != vars.end(); ++vi) vs.push_back(vt.find(*vi));
+        }
+        std::sort(vs.begin(), vs.end());
+        fs.push_back(std::make_pair((long)key.get().get_debug_info().get_id(), vs));
+      }
+      std::sort(fs.begin(), fs.end());
+      for (size_t k = 0; k < fs.size(); ++k) {
+        facts << (k ? "," : "") << "{\"a\":" << fs[k].first << ",\"vs\":[";
+        for (size_t j = 0; j < fs[k].second.size(); ++j) facts << (j ? "," : "") << fs[k].second[j];
+        facts << "]}";
+      }
+    }
+    facts << "]";
   }
-  FILE *out = fopen(argv[2], "w");
-  if (!out) return 2;
+  o << "{\"id\":" << p["id"].i() << ",\"k\":\"crawl\",\"ctop\":[" << tops.str() << "],\"crawl\":[" << facts.str() << "]}\n";
+}
+
+static void run_pass(const std::vector<vj::Value> &ps, FILE *out, int pass) {
   size_t next = 0;
   while (next < ps.size()) {
     int pfd[2];
-    if (pipe(pfd) != 0) return 2;
+    if (pipe(pfd) != 0) exit(2);
     fflush(out);
     pid_t pid = fork();
     if (pid == 0) {
@@ -65,7 +110,8 @@ int main(int argc, char **argv) {
       for (size_t j = next; j < ps.size(); ++j) {
         alarm(20);
         std::ostringstream s;
-        run_one(ps[j], s);
+        if (pass == 1) run_live(ps[j], s);
+        else run_crawl(ps[j], s);
         alarm(0);
         fputs(s.str().c_str(), out);
         fflush(out);
@@ -84,10 +130,26 @@ int main(int argc, char **argv) {
     waitpid(pid, &status, 0);
     next += done;
     if (next < ps.size()) {
-      fprintf(out, "{\"id\":%lld,\"err\":\"crash\"}\n", ps[next]["id"].i());
+      if (pass == 1) fprintf(out, "{\"id\":%lld,\"err\":\"crash\"}\n", ps[next]["id"].i());
+      else fprintf(out, "{\"id\":%lld,\"k\":\"crawl\",\"err\":\"crash\"}\n", ps[next]["id"].i());
       ++next;
     }
   }
+}
+
+int main(int argc, char **argv) {
+  if (argc < 3) return 2;
+  std::vector<vj::Value> ps;
+  {
+    std::ifstream in(argv[1]);
+    std::string line;
+    while (std::getline(in, line))
+      if (!line.empty()) ps.push_back(vj::parse(line));
+  }
+  FILE *out = fopen(argv[2], "w");
+  if (!out) return 2;
+  run_pass(ps, out, 1);
+  run_pass(ps, out, 2);
   fclose(out);
   return 0;
 }
